@@ -598,6 +598,53 @@ fn generate(seed: u64, n_cases: usize, tier: &str) {
         out.case(format!("d{id}"));
         domain_case(&mut out, &mut drng, j);
     }
+    // configuration-shape family (`cfg<id>`): one case per ten random ones, from its own random stream. The `r` cases
+    // configure 1 or 2 instruments; here `init n` has n in {0, 3, 5, 8, 12}: no instrument at all (every event is for a
+    // non-configured key), and many instruments of which only 1-3 ever receive an event (the books of the others must
+    // still be OrderBook::default() after the manager run); keys >= n are not configured.
+    let mut crng = Rng::new(seed ^ 0xCF6_C05);
+    for _ in 0..n_cases / 10 {
+        id += 1;
+        out.case(format!("cfg{id}"));
+        let rng = &mut crng;
+        let n = *rng.pick(&[0usize, 3, 5, 5, 8, 12]);
+        out.line(format!("init {n}"));
+        let grid = Grid::new(rng, 8);
+        let zero_pct = *rng.pick(&[10u64, 30, 60]);
+        // the active instruments: any position (first, middle, last) of 0..n, plus the non-configured n and n+7
+        let mut keys: Vec<usize> = (0..rng.range(1, 3)).map(|_| rng.below(n.max(1) as u64) as usize).collect();
+        if n > 0 && rng.chance(50) {
+            keys.push(n - 1);
+        }
+        keys.push(n);
+        if rng.chance(30) {
+            keys.push(n + 7);
+        }
+        let mut seq: u64 = rng.range(0, 1000) as u64;
+        for i in 0..rng.range(2, 25) {
+            if rng.chance(4) {
+                out.line("re");
+                continue;
+            }
+            let k = *rng.pick(&keys);
+            seq += rng.below(3);
+            if i == 0 || rng.chance(12) {
+                out.line(format!(
+                    "snap {k} {seq} | {} | {}",
+                    snapshot_levels(rng, &grid).join(" "),
+                    snapshot_levels(rng, &grid).join(" ")
+                ));
+            } else {
+                let b = update_levels(rng, &grid, 10, zero_pct);
+                let a = if rng.chance(30) { vec![] } else { update_levels(rng, &grid, 10, zero_pct) };
+                out.line(format!("upd {k} {seq} | {} | {}", b.join(" "), a.join(" ")));
+            }
+            if rng.chance(10) {
+                out.line(format!("depth {} {}", rng.pick(&keys), rng.pick(&[0u64, 1, 2, 5])));
+            }
+        }
+        out.line("mgr");
+    }
     out.flush();
 }
 
